@@ -182,6 +182,20 @@ def build_shared_features_map(mod: fx.GraphModule,
             for i in pred:
                 sharing_graph.remove_edge(i, n)
 
+    # a layer invoked more than once per forward pass has a single set of output features (one
+    # masker) and slices its weights by a single input-features mask: all its call sites belong
+    # to the same component, and so do the tensors they are applied to
+    call_sites: Dict[str, fx.Node] = {}
+    for n in list(sharing_graph.nodes):
+        n = cast(fx.Node, n)
+        if n.op == 'call_module' and n.meta['features_defining']:
+            if str(n.target) in call_sites:
+                first = call_sites[str(n.target)]
+                sharing_graph.add_edge(first, n)
+                sharing_graph.add_edge(first.all_input_nodes[0], n.all_input_nodes[0])
+            else:
+                call_sites[str(n.target)] = n
+
     # handle the case of a forward function with multiple outputs (returned as a tuple or list) with
     # possibly independent shapes. In this case, the graph will contain a final output node that is
     # difficult to treat and we remove in this step, treating each single output independently.
